@@ -580,7 +580,7 @@ func TestCheck(t *testing.T) {
 				mtb := int(grep.BC.GetMaxTraceableBlocks())
 				for hh := tip; hh > tip-mtb+2 && hh >= 1; hh -= 1 + gr.Intn(3) {
 					id := fmt.Sprintf("h%d/pruning/tip%d/height%d", hi, tip, hh)
-					v := checkHeight(run, grep.BC, uint32(hh), h.P.Obs[hh], nil, everDeleted, gr, "quick")
+					v := checkHeight(run, grep.BC, uint32(hh), h.P.Obs[hh], recs[uint32(hh)], everDeleted, gr, "quick")
 					run.Case(id, true)
 					run.Obs("pruning_node_heights_checked", 1)
 					if v != nil {
